@@ -100,7 +100,7 @@ fn term_vars(t: Tid, out: &mut BTreeSet<u32>, seen: &mut HashSet<Tid>) {
             }
             match &a.nodes[t as usize] {
                 Node::Const(_) => {}
-                Node::Var(v) => {
+                Node::Var(v) | Node::Limb(v, _) => {
                     out.insert(*v);
                 }
                 Node::Add(x, y) | Node::Sub(x, y) | Node::Mul(x, y) => {
@@ -158,7 +158,7 @@ fn reach(t: Tid, out: &mut BTreeSet<Tid>) {
                 continue;
             }
             match &a.nodes[t as usize] {
-                Node::Const(_) | Node::Var(_) => {}
+                Node::Const(_) | Node::Var(_) | Node::Limb(_, _) => {}
                 Node::Add(x, y) | Node::Sub(x, y) | Node::Mul(x, y) => {
                     stack.push(*x);
                     stack.push(*y);
@@ -304,6 +304,10 @@ pub fn build_script_pinned(asserts: &[F], timeout_ms: u64, want_model: bool, pin
         for tid in &terms {
             let d = match &a.nodes[*tid as usize] {
                 Node::Const(_) | Node::Var(_) => continue,
+                Node::Limb(v, i) => {
+                    let p = match i { 0 => "1", 1 => "18446744073709551616", 2 => "340282366920938463463374607431768211456", _ => "6277101735386680763835789423207666416102355444464034512896" };
+                    format!("(mod (div {} {}) 18446744073709551616)", a.vars[*v as usize].name, p)
+                }
                 Node::Add(x, y) => format!("(+ {} {})", tname(a, *x), tname(a, *y)),
                 Node::Sub(x, y) => format!("(- {} {})", tname(a, *x), tname(a, *y)),
                 Node::Mul(x, y) => format!("(* {} {})", tname(a, *x), tname(a, *y)),
